@@ -37,6 +37,16 @@ def strategy(shard):
     def case(draw):
         cfg = draw(nonneg.config(shard["family"], max_N=shard.get("max_N", 60)))
         x = draw(nonneg.sample(cfg))
+        if cfg["family"] in ("alpha-fixed", "sprt-fin") and cfg["N"] and cfg["N"] >= 4 and draw(st.integers(0, 3)) == 0:
+            # a fixed alternative that the draws make impossible by a hair: after k zeros the implied alternative
+            # (N eta)/(N-k) is u(1+delta) for a tiny delta (tolerance-sized overshoots must be truncated too)
+            N, u, t = cfg["N"], cfg["u"], cfg["t"]
+            k = draw(st.integers(1, N - 2))
+            delta = draw(st.sampled_from([1e-6, 5e-7, 1e-7, 1e-8, 1e-10, -1e-9]))
+            eta = u * (1 + delta) * (N - k) / N
+            if t < eta < u:
+                cfg["kw"]["eta"] = eta
+                x = ([0.0] * k + [draw(nonneg._value(u, t)) for _ in range(draw(st.integers(1, 3)))])[: N]
         return {"cfg": cfg, "x": x}
 
     return case()
